@@ -638,4 +638,178 @@ theorem dictUpdate_lookup_some (a b : List (String × J)) (k : String) (v : J)
       simp only [dictUpdate]
       exact ih _ hn.2 h
 
+/-! ### `execute_ws` = connect, then the session -/
+
+theorem runT_session (t : Types) (sp : String) (cfg : Cfg) (vars : Vars) (fs : List Frame) :
+    runT t sp cfg vars fs =
+      if J.hasKey "subprotocols" cfg.kwargs then ⟨[], .internal "TypeError"⟩
+      else ⟨.connect (connectArgs sp cfg) :: (session t cfg vars fs).1, (session t cfg vars fs).2⟩ := by
+  unfold runT session
+  split
+  · rfl
+  · cases fs with
+    | nil => rfl
+    | cons f fs => cases hh : handle t (some t.ack) f <;> simp [hh]
+
+/-! ### `dict.update`, exactly: the later dict wins, the earlier one fills in, nothing else appears -/
+
+theorem dictUpdate_lookup (a b : List (String × J)) (k : String) (hn : (b.map (·.1)).Nodup) :
+    J.lookup k (dictUpdate a b) = match J.lookup k b with
+      | some v => some v
+      | none => J.lookup k a := by
+  cases hb : J.lookup k b with
+  | none => exact dictUpdate_lookup_none a b k hb
+  | some v => exact dictUpdate_lookup_some a b k v hn hb
+
+/-! ### Which variables `json.dumps` (no `default=`) can serialise -/
+
+theorem map_isSome {α β : Type} (f : α → β) (o : Option α) : (o.map f).isSome = o.isSome := by
+  cases o <;> rfl
+
+mutual
+  theorem rawJson_plain : ∀ (v : PV), plainPF v = true → hasForeign v = false → (rawJson v).isSome = true
+    | .null, _, _ => rfl
+    | .bool _, _, _ => rfl
+    | .num _ _, _, _ => rfl
+    | .str _, _, _ => rfl
+    | .foreign _, _, hf => by simp [hasForeign] at hf
+    | .unset, hp, _ => by simp [plainPF] at hp
+    | .model _, hp, _ => by simp [plainPF] at hp
+    | .modelPy _, hp, _ => by simp [plainPF] at hp
+    | .list xs, hp, hf => by
+      have := rawJsonList_plain xs (by simpa [plainPF] using hp) (by simpa [hasForeign] using hf)
+      simpa [rawJson, map_isSome] using this
+    | .dict kvs, hp, hf => by
+      have := rawJsonKvs_plain kvs (by simpa [plainPF] using hp) (by simpa [hasForeign] using hf)
+      simpa [rawJson, map_isSome] using this
+  theorem rawJsonList_plain : ∀ (xs : List PV), plainPFList xs = true → hasForeignList xs = false →
+      (rawJsonList xs).isSome = true
+    | [], _, _ => rfl
+    | x :: xs, hp, hf => by
+      simp only [plainPFList, Bool.and_eq_true] at hp
+      simp only [hasForeignList, Bool.or_eq_false_iff] at hf
+      obtain ⟨j, hj⟩ := Option.isSome_iff_exists.mp (rawJson_plain x hp.1 hf.1)
+      obtain ⟨js, hjs⟩ := Option.isSome_iff_exists.mp (rawJsonList_plain xs hp.2 hf.2)
+      simp [rawJsonList, hj, hjs]
+  theorem rawJsonKvs_plain : ∀ (kvs : List (String × PV)), plainPFKvs kvs = true → hasForeignKvs kvs = false →
+      (rawJsonKvs kvs).isSome = true
+    | [], _, _ => rfl
+    | (k, x) :: xs, hp, hf => by
+      simp only [plainPFKvs, Bool.and_eq_true] at hp
+      simp only [hasForeignKvs, Bool.or_eq_false_iff] at hf
+      obtain ⟨j, hj⟩ := Option.isSome_iff_exists.mp (rawJson_plain x hp.1 hf.1)
+      obtain ⟨js, hjs⟩ := Option.isSome_iff_exists.mp (rawJsonKvs_plain xs hp.2 hf.2)
+      simp [rawJsonKvs, hj, hjs]
+end
+
+mutual
+  theorem convJson_readable : ∀ (v : PV), readable v = true → hasForeign v = false → (convJson v).isSome = true
+    | .null, _, _ => rfl
+    | .bool _, _, _ => rfl
+    | .num _ _, _, _ => rfl
+    | .str _, _, _ => rfl
+    | .model _, _, _ => rfl
+    | .foreign _, _, hf => by simp [hasForeign] at hf
+    | .unset, hp, _ => by simp [readable] at hp
+    | .modelPy kvs, hp, hf => by
+      have := rawJsonKvs_plain kvs (by simpa [readable] using hp) (by simpa [hasForeign] using hf)
+      simpa [convJson, map_isSome] using this
+    | .dict kvs, hp, hf => by
+      have := rawJsonKvs_plain kvs (by simpa [readable] using hp) (by simpa [hasForeign] using hf)
+      simpa [convJson, map_isSome] using this
+    | .list xs, hp, hf => by
+      have := convJsonList_readable xs (by simpa [readable] using hp) (by simpa [hasForeign] using hf)
+      simpa [convJson, map_isSome] using this
+  theorem convJsonList_readable : ∀ (xs : List PV), readableList xs = true → hasForeignList xs = false →
+      (convJsonList xs).isSome = true
+    | [], _, _ => rfl
+    | x :: xs, hp, hf => by
+      simp only [readableList, Bool.and_eq_true] at hp
+      simp only [hasForeignList, Bool.or_eq_false_iff] at hf
+      obtain ⟨j, hj⟩ := Option.isSome_iff_exists.mp (convJson_readable x hp.1 hf.1)
+      obtain ⟨js, hjs⟩ := Option.isSome_iff_exists.mp (convJsonList_readable xs hp.2 hf.2)
+      simp [convJsonList, hj, hjs]
+end
+
+theorem convDict_readable (kvs : List (String × PV)) (hp : readableTop kvs = true) (hf : hasForeignKvs kvs = false) :
+    (convDict kvs).isSome = true := by
+  induction kvs with
+  | nil => rfl
+  | cons kv rest ih =>
+    obtain ⟨k, v⟩ := kv
+    simp only [hasForeignKvs, Bool.or_eq_false_iff] at hf
+    by_cases hu : v = .unset
+    · subst hu
+      simp only [readableTop] at hp
+      simpa [convDict] using ih hp hf.2
+    · have hp' : readable v = true ∧ readableTop rest = true := by
+        cases v <;> first | exact absurd rfl hu | simpa [readableTop] using hp
+      obtain ⟨j, hj⟩ := Option.isSome_iff_exists.mp (convJson_readable v hp'.1 hf.1)
+      obtain ⟨r, hr⟩ := Option.isSome_iff_exists.mp (ih hp'.2 hf.2)
+      cases v <;> first | exact absurd rfl hu | simp [convDict, hj, hr]
+
+mutual
+  theorem rawJson_foreign : ∀ (v : PV), hasForeign v = true → rawJson v = none
+    | .foreign _, _ => rfl
+    | .modelPy _, _ => rfl
+    | .null, h => by simp [hasForeign] at h
+    | .bool _, h => by simp [hasForeign] at h
+    | .num _ _, h => by simp [hasForeign] at h
+    | .str _, h => by simp [hasForeign] at h
+    | .unset, h => by simp [hasForeign] at h
+    | .model _, h => by simp [hasForeign] at h
+    | .list xs, h => by simp [rawJson, rawJsonList_foreign xs (by simpa [hasForeign] using h)]
+    | .dict kvs, h => by simp [rawJson, rawJsonKvs_foreign kvs (by simpa [hasForeign] using h)]
+  theorem rawJsonList_foreign : ∀ (xs : List PV), hasForeignList xs = true → rawJsonList xs = none
+    | [], h => by simp [hasForeignList] at h
+    | x :: xs, h => by
+      simp only [hasForeignList, Bool.or_eq_true] at h
+      rcases h with h | h
+      · simp [rawJsonList, rawJson_foreign x h]
+      · have := rawJsonList_foreign xs h
+        cases hx : rawJson x <;> simp [rawJsonList, hx, this]
+  theorem rawJsonKvs_foreign : ∀ (kvs : List (String × PV)), hasForeignKvs kvs = true → rawJsonKvs kvs = none
+    | [], h => by simp [hasForeignKvs] at h
+    | (k, x) :: xs, h => by
+      simp only [hasForeignKvs, Bool.or_eq_true] at h
+      rcases h with h | h
+      · simp [rawJsonKvs, rawJson_foreign x h]
+      · have := rawJsonKvs_foreign xs h
+        cases hx : rawJson x <;> simp [rawJsonKvs, hx, this]
+end
+
+mutual
+  theorem convJson_foreign : ∀ (v : PV), hasForeign v = true → convJson v = none
+    | .foreign _, _ => rfl
+    | .modelPy kvs, h => by simp [convJson, rawJsonKvs_foreign kvs (by simpa [hasForeign] using h)]
+    | .dict kvs, h => by simp [convJson, rawJsonKvs_foreign kvs (by simpa [hasForeign] using h)]
+    | .list xs, h => by simp [convJson, convJsonList_foreign xs (by simpa [hasForeign] using h)]
+    | .null, h => by simp [hasForeign] at h
+    | .bool _, h => by simp [hasForeign] at h
+    | .num _ _, h => by simp [hasForeign] at h
+    | .str _, h => by simp [hasForeign] at h
+    | .unset, h => by simp [hasForeign] at h
+    | .model _, h => by simp [hasForeign] at h
+  theorem convJsonList_foreign : ∀ (xs : List PV), hasForeignList xs = true → convJsonList xs = none
+    | [], h => by simp [hasForeignList] at h
+    | x :: xs, h => by
+      simp only [hasForeignList, Bool.or_eq_true] at h
+      rcases h with h | h
+      · simp [convJsonList, convJson_foreign x h]
+      · have := convJsonList_foreign xs h
+        cases hx : convJson x <;> simp [convJsonList, hx, this]
+end
+
+theorem convDict_foreign (kvs : List (String × PV)) (h : hasForeignKvs kvs = true) : convDict kvs = none := by
+  induction kvs with
+  | nil => simp [hasForeignKvs] at h
+  | cons kv rest ih =>
+    obtain ⟨k, v⟩ := kv
+    simp only [hasForeignKvs, Bool.or_eq_true] at h
+    rcases h with h | h
+    · have hc := convJson_foreign v h
+      cases v <;> first | (simp [hasForeign] at h; done) | simp [convDict, hc]
+    · have := ih h
+      cases v <;> first | simpa [convDict] using this | (simp only [convDict, this]; split <;> simp_all)
+
 end Ariadne.WsProofs
